@@ -226,10 +226,18 @@ func (f *fn) effect(call *ast.CallExpr, rest func() string) string {
 	if sig.NDecl != 0 || len(sig.Muts) == 0 {
 		f.fail(call, "statement %s: the call has results or no effect the translator knows", f.render(call))
 	}
-	type target struct {
-		name string
-		t    ty
-	}
+	ts := f.mutTargets(call, c, sig, args)
+	r := f.apply(call, c, sig, args)
+	return f.rebindAll(ts, r, 0, rest)
+}
+
+type target struct {
+	name string
+	t    ty
+}
+
+// mutTargets: the caller's variables / fields that stand for the slice parameters the callee writes to.
+func (f *fn) mutTargets(call *ast.CallExpr, c *types.Func, sig *Sig, args []ast.Expr) []target {
 	var ts []target
 	for _, j := range sig.Muts {
 		p := sig.Params[j]
@@ -252,16 +260,21 @@ func (f *fn) effect(call *ast.CallExpr, rest func() string) string {
 		}
 		ts = append(ts, target{name, t})
 	}
-	r := f.apply(call, c, sig, args)
-	if len(ts) == 1 {
+	return ts
+}
+
+// rebindAll binds the written slices to the components of r from position skip on (the declared results come first).
+func (f *fn) rebindAll(ts []target, r string, skip int, rest func() string) string {
+	if len(ts) == 1 && skip == 0 {
 		return f.rebind(ts[0].name, ts[0].t, r, rest)
 	}
 	tmp := f.fresh("r")
 	out := f.takePre() + "let " + tmp + " := " + r + "\n"
+	n := skip + len(ts)
 	k := rest
 	for i := len(ts) - 1; i >= 0; i-- {
-		proj := tmp + strings.Repeat(".2", i)
-		if i < len(ts)-1 {
+		proj := tmp + strings.Repeat(".2", skip+i)
+		if skip+i < n-1 {
 			proj += ".1"
 		}
 		t, inner := ts[i], k
